@@ -245,6 +245,12 @@ def dst(x, type=2, **kw):
     x = _np.asarray(x)
     if x.dtype != object:
         return _fftpack.dst(x, type=type, **kw)
+    if x.ndim == 2 and kw.get('axis', -1) in (-1, 1):
+        kw2 = {k_: v_ for k_, v_ in kw.items() if k_ not in ('axis', 'overwrite_x')}
+        return _np.stack([dst(_np.array([row[i] for i in range(len(row))], dtype=object), type=type, **kw2) for row in x])
+    if x.ndim == 2 and kw.get('axis') == 0:
+        kw2 = {k_: v_ for k_, v_ in kw.items() if k_ not in ('axis', 'overwrite_x')}
+        return _np.stack([dst(_np.array([x[i, j] for i in range(x.shape[0])], dtype=object), type=type, **kw2) for j in range(x.shape[1])], axis=1)
     n_ = kw.get('n')
     if n_ is not None and n_ != len(x):
         # scipy: the input is truncated or zero-padded to length n before the transform
